@@ -46,6 +46,16 @@ impl AllocCache {
         }
     }
 
+    /// Verification hook: `(chunk start, bump, chunk end)` addresses.
+    #[cfg(woodpile_verif)]
+    pub fn verif_view(&self) -> (usize, usize, usize) {
+        (
+            self.range.start as usize,
+            self.bump as usize,
+            self.range.end as usize,
+        )
+    }
+
     /// Returns the initial capacity allocated for the backing chunk
     /// (i.e., the size of the backing chunk).
     #[must_use]
